@@ -7,12 +7,15 @@ ID = 'C12'
 TARGETS = ['MindsVerif.Props.C12']
 THEOREMS = ['MindsVerif.Props.C12.' + n for n in (
     'C12_count', 'C12_found_perm', 'C12_textual', 'C12_fill', 'C12_visits', 'C12_execute', 'C12_mismatch', 'C12_partial',
-    'phi12', 'C12_update_textual', 'C12_from_arg', 'C12_case_operand', 'C12_second_execute', 'C12_info_after_execute',
+    'phi12', 'phi12_markers', 'C12_update_textual', 'C12_from_arg', 'C12_case_operand', 'C12_second_execute', 'C12_info_after_execute',
     'C12_keeps_alias')]
 ASSUME = [
     'get_query_params / fill_query_params = the walker model (C13) with the visitors cbFind / cbFillMap, ordered by rendered position (Params.sortByText over Walk.textOrder, print templates); prepare / execute / '
     'get_statement_info are hand-transcribed (Model/Params.lean); tie = correspondence stream (find, fill with n and n-1 '
     'values, call sequences) against the real functions and a real QueryPlanner',
+    'the marker search of sort_by_text_position (text.find on the rendered statement) is modelled by the print-template position; '
+    'pinned by phi12_markers (probed markers pairwise infix-free, kernel-checked) and by the obligation probe:marker-search '
+    '(the real function on 30 placeholders rendered in adversarial orders)',
     'IndexError of params.pop(0) is modelled as a flag; plan_query (what happens after the filled tree is handed to the '
     'planner) is outside the model and compared on the real code only (plan of execute_steps vs plan of the inlined statement)',
     'statement generator: `?` in select list, WHERE, ON, CASE operand and branches, function arguments and FROM-argument, '
@@ -92,6 +95,58 @@ def gen_statement(rng, d):
     return 'WITH w AS (%s) %s' % (gen_select(rng, depth, d), gen_select(rng, depth, d))
 
 
+def gen_cell(rng, p=0.5):
+    r = rng.random()
+    if r < p:
+        return '?'
+    return rng.choice(['1', '2', "'s'", 'NULL', '0', 'c1', '1 + 2', 'f(c0)'])
+
+
+def gen_insert_rows(rng, d):
+    """multi-row INSERT … VALUES with a placeholder in any subset of the cells (rows of literals only, rows of
+    placeholders only, mixed rows, in any order)"""
+    rows, cols = rng.randint(1, 5), rng.randint(1, 4)
+    p = rng.choice([0.2, 0.5, 0.8])
+    body = []
+    for r in range(rows):
+        kind = rng.random()
+        if kind < 0.25:
+            cells = [rng.choice(['1', "'s'", 'NULL', '0', '2']) for _ in range(cols)]      # a row of literals
+        elif kind < 0.4:
+            cells = ['?'] * cols
+        else:
+            cells = [gen_cell(rng, p) for _ in range(cols)]
+        body.append('(%s)' % ', '.join(cells))
+    return 'INSERT INTO int.t1 (%s) VALUES %s' % (', '.join('c%d' % i for i in range(cols)), ', '.join(body))
+
+
+def gen_many(rng, d):
+    """statements with many placeholders (up to ~25) in the shapes where the walker's order differs from the written
+    order: FROM sub-selects, joins, joined sub-selects, WITH bodies, UPDATE … SET … WHERE — and flat ones"""
+    def items(n, p=0.85):
+        return [('?' if rng.random() < p else 'c%d' % rng.randrange(3)) for _ in range(n)]
+
+    def conj(n):
+        return ' AND '.join('c%d = %s' % (i % 3, x) for i, x in enumerate(items(max(1, n))))
+    a, b, c = rng.randint(1, 13), rng.randint(1, 9), rng.randint(0, 5)
+    shape = rng.randrange(8)
+    if shape == 0:
+        return 'SELECT %s FROM (SELECT x FROM int.t WHERE %s) AS s%s' % (', '.join(items(a)), conj(b), ' WHERE ' + conj(c) if c else '')
+    if shape == 1:
+        return 'UPDATE int.t SET %s WHERE %s' % (', '.join('k%d = %s' % (i, x) for i, x in enumerate(items(a))), conj(b))
+    if shape == 2:
+        return 'SELECT * FROM (SELECT %s FROM int.a) x JOIN (SELECT %s FROM int.b) y ON %s' % (', '.join(items(a)), ', '.join(items(b)), conj(max(1, c)))
+    if shape == 3:
+        return 'WITH w AS (SELECT %s FROM int.t WHERE %s) SELECT %s FROM w' % (', '.join(items(b)), conj(max(1, c)), ', '.join(items(a)))
+    if shape == 4:
+        return 'SELECT %s FROM int.t1 JOIN int.t2 ON %s WHERE %s' % (', '.join(items(a)), conj(b), conj(max(1, c)))
+    if shape == 5:
+        return 'SELECT %s FROM int.t WHERE c0 IN (%s) AND %s' % (', '.join(items(max(1, c))), ', '.join(items(a)), conj(b))
+    if shape == 6:
+        return 'SELECT %s FROM int.a UNION SELECT %s FROM (SELECT %s FROM int.b) z' % (', '.join(items(a)), ', '.join(items(max(1, c))), ', '.join(items(b)))
+    return 'INSERT INTO int.t1 (a, b) SELECT %s FROM (SELECT %s FROM int.a WHERE %s) q' % (', '.join(items(2, 1.0)), ', '.join(items(a)), conj(b))
+
+
 FIXED = [
     'UPDATE int.t SET a = ?, b = ? WHERE c = ?',
     'SELECT * FROM (SELECT ? FROM int.a) x JOIN (SELECT ? FROM int.b) y ON x.i = ?',
@@ -105,7 +160,8 @@ FIXED = [
     'SELECT ? UNION SELECT ?',
     'SELECT a FROM int.t WHERE b = 1',
     'SELECT ? AS x, (?) FROM int.t',
-]
+] + ['INSERT INTO int.t (a, b) VALUES (%s, %s), (%s, %s)' % tuple('?' if (m >> i) & 1 else str(i + 1) for i in range(4))
+     for m in range(16)]
 
 
 def inline(text, vals):
@@ -387,13 +443,20 @@ def run(chk):
     if quick and broken:
         n_gen = 1500
     schema = walkrun.load_schema()
+    # assumptions of the model that are probed from the code on every run (tools/extract/x_schema.py)
+    non = {cn: c['nonuniform'] for cn, c in schema['classes'].items() if c['nonuniform']}
+    chk.oblige('probe:uniform', 'translator', not non, json.dumps(non)[:800])
+    mk = schema.get('markers', {})
+    chk.oblige('probe:marker-search', 'translator', bool(mk.get('markers')) and not mk.get('failures'),
+               json.dumps(mk.get('failures'))[:800])
     known_causes = {k['signature']['cause'] for k in chk.kf if k.get('status') == 'open' and k['signature'].get('kind') == 'cause'}
     lines, metas = [], []
     dist = {}
     seen = set()
     for d in DIALECTS:
         rng = common.rng_for(chk.seed, 'C12/' + d)
-        texts = list(FIXED) + [gen_statement(rng, d) for _ in range(n_gen)]
+        texts = list(FIXED) + [gen_statement(rng, d) for _ in range(n_gen)] \
+            + [gen_many(rng, d) for _ in range(n_gen // 6)] + [gen_insert_rows(rng, d) for _ in range(n_gen // 8)]
         for text in texts:
             try:
                 tree = parse_sql(text, d)
